@@ -1,0 +1,41 @@
+/*
+ * Verification hooks. Everything here is inert unless the code is built with
+ * -DLIBLCB_VERIF: then LCB_VERIF_POINT(id) calls liblcb_verif_point(id) if the
+ * test harness defines it (seeded yield/sleep + visit counter).
+ */
+
+#ifndef __LCB_VERIF_HOOKS_H__
+#define __LCB_VERIF_HOOKS_H__
+
+#ifdef LIBLCB_VERIF
+
+enum {
+	LCB_VP_MSG_SEND_ENTRY = 1,
+	LCB_VP_MSG_SEND_BEFORE_WRITE,
+	LCB_VP_MSG_RECV_AFTER_READ,
+	LCB_VP_MSG_RECV_BETWEEN_PKTS,
+	LCB_VP_BCAST_DEC_AFTER_UNLOCK,
+	LCB_VP_ONE_BY_ONE_BEFORE_NEXT,
+	LCB_VP_BSEND_WAIT_LOOP,
+	LCB_VP_SHUTDOWN_TEST_TO_INC,
+	LCB_VP_THREAD_PROC_BEFORE_LOOP,
+	LCB_VP_THREAD_PROC_AFTER_LOOP,
+	LCB_VP_THREAD_PROC_AFTER_STOP_STORE,
+	LCB_VP_SHUTDOWN_WAIT_BEFORE_JOIN,
+	LCB_VP__COUNT
+};
+
+extern void liblcb_verif_point(int id) __attribute__((weak));
+
+#define LCB_VERIF_POINT(__id) do {					\
+	if (liblcb_verif_point)						\
+		liblcb_verif_point((__id));				\
+} while (0)
+
+#else /* LIBLCB_VERIF */
+
+#define LCB_VERIF_POINT(__id)
+
+#endif /* LIBLCB_VERIF */
+
+#endif /* __LCB_VERIF_HOOKS_H__ */
